@@ -6,21 +6,9 @@ import (
 	"golang.org/x/crypto/internal/verifrt"
 )
 
-// Compression abstracted as an uninterpreted function of (h, c, flag); it cannot panic for
-// whole blocks, which is asserted. (C05 pins hashBlocksGeneric to RFC 7693.)
-//
-//verif:stub golang.org/x/crypto/blake2b.hashBlocks
-func stubHashBlocks(h *[8]uint64, c *[2]uint64, flag uint64, blocks []byte) {
-	if !verifrt.Symbolic() {
-		hashBlocks(h, c, flag, blocks)
-		return
-	}
-	verifrt.Assert(len(blocks) > 0 && len(blocks)%BlockSize == 0, "hashBlocks receives whole blocks")
-	for i := range h {
-		h[i] = verifrt.UF64("b2bF", uint64(i), h[i], c[0], c[1], flag)
-	}
-	c[0] += uint64(len(blocks))
-}
+// The compression (hashBlocks) is abstracted by the stub in zz_verif_c05.go: hashBlocksGeneric's
+// block loop with F replaced by an uninterpreted function of (h, t, f, block); it cannot panic
+// for whole blocks, which is asserted there. (C05 pins hashBlocksGeneric to RFC 7693.)
 
 func c07Use(d *digest, n int) bool {
 	p := verifrt.Bytes(n)
